@@ -31,6 +31,10 @@ func (h *RequestBufferMiddleware) ServeHTTP(w http.ResponseWriter, r *http.Reque
 		return
 	}
 
+	// The buffer may have spilled to a temporary file, which is only removed
+	// when the buffer is closed. Don't rely on the next handler to do that.
+	defer requestBuffer.Close()
+
 	r.Body = requestBuffer
 	h.next.ServeHTTP(w, r)
 }
